@@ -327,7 +327,7 @@ func inputsFor(c *byteCase) (*inputs, []string, []byte) {
 			m = mutateBytes(m, o)
 		}
 		in := fromBytes(m, base.js)
-		return in, []string{"clear-bin", "nosecrets-bin", "enc-bin", "encad-bin", "encctx-bin"}, m
+		return in, []string{"clear-bin", "nosecrets-bin", "enc-bin", "encad-bin", "encctx-bin", "mem-enc"}, m
 	case "json":
 		m := base.js
 		for _, o := range c.Ops {
@@ -344,7 +344,7 @@ func inputsFor(c *byteCase) (*inputs, []string, []byte) {
 		}
 		in := *base
 		in.encBin, in.encadBin = m, m2
-		return &in, []string{"enc-bin", "encad-bin", "encctx-bin"}, m
+		return &in, []string{"enc-bin", "encad-bin", "encctx-bin", "mem-enc"}, m
 	case "encjson":
 		m := base.encJS
 		m2 := base.encadJS
